@@ -72,6 +72,7 @@ type Exec struct {
 	curStmtPos token.Pos
 	closures map[types.Object]*ast.FuncLit
 	boxAx    map[string]bool
+	floatN   int
 	sendValue ast.Expr // the value expression of the send statement whose assertions are being evaluated
 	loopsUsed map[int]bool
 	UsedContracts map[string]bool
@@ -608,6 +609,7 @@ func (e *Exec) convertTo(st *State, v Term, from, to types.Type) Term {
 	if v.Sort != ts {
 		// untyped constant to float etc.
 		if v.Sort == SInt && ts == SReal {
+			e.noteFloatModel()
 			return Term{"(to_real " + v.S + ")", SReal}
 		}
 	}
@@ -1268,4 +1270,15 @@ func (e *Exec) evalCompositeLitTyped(st *State, x *ast.CompositeLit, t types.Typ
 func isPointer(t types.Type) bool {
 	_, ok := t.Underlying().(*types.Pointer)
 	return ok
+}
+
+
+const floatModelNote = "float64 values are modelled by exact real numbers"
+
+func (e *Exec) noteFloatModel() {
+	if e.Fn != nil && e.Fn.C != nil && e.Fn.C.FloatBV {
+		e.Assumed[floatModelNote+" in "+e.fnName()+"; justified for its math.Ceil(float64(n)/k) by the float/range and float/ieee-ceil-div obligations (the IEEE-754 one is decided in the thorough tier only)"] = true
+		return
+	}
+	e.Assumed[floatModelNote+" in "+e.fnName()+" (IEEE-754 rounding not modelled)"] = true
 }
